@@ -294,8 +294,21 @@ def r4(ctx):
     hi = [k for k, v in defs.items() if v == (240, 4)]
     okn = bool(lo and hi) and fk in ('((#5 * (%s - #1)) + %s)' % (lo[0], hi[0]), '(%s + (#5 * (%s - #1)))' % (hi[0], lo[0]))
     ctx.ob('C11.R4', mn, final[0] if final else mn.body, okn, 'getMasterNumber formula', 'number = %s with %s' % (fk, defs))
-    zero_rets = [r for r in mn.all('ReturnStmt') if mn.val(mn.nodes[r].get('val')) == 0]
-    ctx.ob('C11.R4', mn, mn.body, len(zero_rets) >= 2, 'getMasterNumber non-master', 'returns 0 for non-master parts on %d paths' % len(zero_rets),
+    # 0 for an address with a nibble that is no master part: decided by evaluating the function (however its tests are grouped)
+    import tinyeval as _te
+    part_fn = fb.fn('ebusd::getMasterPartIndex')
+    nz = []
+    try:
+        for a_ in range(256):
+            m_ = _te.Machine(mn, {}, [a_])
+            m_.free = {'ebusd::getMasterPartIndex': lambda x_: _te.run(part_fn, {}, [x_ & 0xff])}
+            got_ = m_.call()
+            is_m = (a_ & 0x0f) in (0, 1, 3, 7, 15) and ((a_ & 0xf0) >> 4) in (0, 1, 3, 7, 15)
+            if not is_m and got_ != 0:
+                nz.append('%02x' % a_)
+    except (_te.Unknown, _te.OutOfBounds) as e_:
+        raise AnalysisBroken('C11.R4: getMasterNumber not evaluable (%s)' % e_)
+    ctx.ob('C11.R4', mn, mn.body, not nz, 'getMasterNumber non-master', 'evaluates to 0 for all 231 non-master addresses: %s%s' % (not nz, '' if not nz else ' (not for %s)' % ', '.join(nz[:5])),
            nontrivial=False)
     # +-5
     def offset_of(fname, expect, what):
